@@ -97,7 +97,10 @@ P = {
                 "the sha256 suffix of environment keys is modelled by its pre-image (normalised name, value text); collisions are not modelled",
                 "mapstructure decoding of the merged tree into the Configuration struct is not modelled: the observable is the merged tree "
                 "that Load hands to the decoder (captured by a decode hook)",
-                "koanf (env provider, maps.Unflatten, Load with merge function, Raw) is transcribed into the model and covered by the correspondence run"],
+                "koanf (env provider, maps.Unflatten, Load with merge function, Raw) is transcribed into the model and covered by the correspondence run",
+                "stream seq: the deep rendering of the decoded Configuration (reflect walk in the driver) is the observable; a fresh "
+                "process per case is obtained by re-executing the test binary; process state outside the Go process (files other "
+                "than the configuration file, the clock) is not varied"],
     "level_text": "Proof (kernel-checked, no axioms) about an executable Gallina transcription of the configuration loader "
                   "(env.go convert/cleanSuffix/koanfFromEnv, merge.go, configloader.go Load, with koanf's env provider, "
                   "maps.Unflatten and merge-function Load): for all defaults, file trees and environments of the property's domain "
@@ -120,8 +123,21 @@ P = {
                   "schema/config.schema.json and the loader's type registries/config structs, nested option objects included (endpoint, assertions, subject, ...: ~160 option rows; open objects as a pseudo option "
                   "`<any>`), with the disagreeing rows recorded as C20-F1 in groups a, b, c (all fixed), each with its own repair flag.  The model is tied to the code by running both on ~1200 (quick) / 30000 (thorough) generated loads per "
                   "run, now ~1000 quick (every observed outcome over 6-30 repetitions must be an outcome of the model for some iteration order) and "
-                  "by replaying ~60 table-derived probes through the real schema validator and the real mechanism loader.",
-    "level_note": "Of the 34 entries in Properties/C20.v thirteen are vm_compute witnesses/examples (refuted, repaired-on-witness, non-vacuity "
+                  "by replaying ~60 table-derived probes through the real schema validator and the real mechanism loader.  "
+                  "That the configuration is a FUNCTION of (defaults, file, environment) also over sequences of loads in one process "
+                  "is C20_history_independent / C20_load_history_independent / C20_load_sequence_meets_spec (C20/History.v: a heap "
+                  "model of what NewConfiguration does around the tree-level loader — a Configuration value holds its map-, slice- and "
+                  "pointer-typed settings as references, decoding writes into the instance referred to, a deep look dereferences at "
+                  "the time of looking; with new instances per defaultConfig() call every result of every sequence, looked at after "
+                  "all its loads, is what its own three inputs give alone; C20_shared_defaults_refuted: with a defaults value "
+                  "copied shallowly it is not), and it is checked on the real NewConfiguration on every run by stream seq "
+                  "(65 quick / 1500 thorough sequences of 2-4 different loads, each in a fresh process, against each load alone in a "
+                  "fresh process; deep rendering of the decoded Configuration after each load and again after every later load).",
+    "level_note": "History block (4 entries, seeded round 5): the heap model of C20/History.v is a model of Go's value/reference "
+                  "semantics around the loader, not a transcription of mapstructure: WHICH settings are reference-typed and that "
+                  "decoding writes the loaded subtree into the existing instance are assumptions of the model (parameters rps, "
+                  "sub/put); its tie to the code is stream seq, which is model-free (v_corr there = a load alone in a fresh process "
+                  "is stable over two runs).  Of the other 34 entries in Properties/C20.v thirteen are vm_compute witnesses/examples (refuted, repaired-on-witness, non-vacuity "
                   "incl. the three F4n/F4s examples, split examples, the two table statements), one is plumbing (in_scope_b_sound), two relate "
                   "the two F4 guards / domains; the general content is in the other eighteen (ten under the syntactic guard_F4 and "
                   "parametric in fix3, seven restated under the narrowed guard for fix3 = true, and the merge theorem for trees "
